@@ -347,6 +347,16 @@ def children : Obj → Option (List Obj)
   | .coll _ cs _ _ => some cs
   | _ => none
 
+/-- a number literal beyond the binary64 range (`1e999`: ±Inf after Go's parse).  The model keeps
+    only "not finite" for such an ordinate, so it cannot decide Go's `+Inf == +Inf` ring-closure and
+    rectangle tests (finding of the regenerated-parser bridge, `Props/ParseBridgeFinding.lean`):
+    documents containing one are declined (`unmodelled`; the implementation's outcome class is still judged) -/
+partial def hasOverflowLit : JVal → Bool
+  | .num fin _ _ _ _ => !fin
+  | .arr items => items.any hasOverflowLit
+  | .obj ms => ms.any (fun m => hasOverflowLit m.2.2)
+  | _ => false
+
 def oparse (w : World) (expect : String) (args : List String) : World × String :=
   match args with
   | id :: opts :: _hex :: ast =>
@@ -363,6 +373,7 @@ def oparse (w : World) (expect : String) (args : List String) : World × String 
           | .error .unmodelled => "-"
           | .error _ => "err"
       if ast == ["nonutf8"] then (w', "unmodelled | - | pu")
+      else if (match readAST ast with | some v => hasOverflowLit v | none => false) then (w', "unmodelled | - | pu")
       else if ast == ["invalid"] then (w', s!"err dataInvalid | {expect} | pe:dataInvalid")
       else match readAST ast with
         | none => (w', "bad-ast")
